@@ -3,6 +3,7 @@ pub mod alias;
 pub mod exact32;
 pub mod fault;
 pub mod hist;
+pub mod law;
 pub mod tree;
 pub mod wt;
 pub mod zig;
@@ -13,6 +14,10 @@ pub const ALL_PROPS: &[&str] = &["C01", "C02", "C03", "C05", "C06", "C07", "C08"
 
 pub fn engine_for(property: &str) -> Option<Box<dyn Engine>> {
     match property {
+        "C01" => Some(Box::new(law::LawEngine::new("C01"))),
+        "C02" => Some(Box::new(law::LawEngine::new("C02"))),
+        "C11" => Some(Box::new(law::LawEngine::new("C11"))),
+        "C12" => Some(Box::new(law::LawEngine::new("C12"))),
         "C03" => Some(Box::new(fault::FaultEngine::new("C03"))),
         "C05" => Some(Box::new(fault::FaultEngine::new("C05"))),
         "C06" => Some(Box::new(zig::ZigEngine)),
